@@ -364,12 +364,17 @@ Proof.
     first [apply ss_take; exact Hk | apply ss_skip; exact Hk | exact Hk].
 Qed.
 
+Lemma dup0_ids_unique : forall S x, dup_count (all_ids x) = 0%nat -> ids_unique S x = true.
+Proof.
+  intros S x Hd. unfold ids_unique. eapply subseq_nodup; [apply ids_of_subseq | ].
+  apply dup_count_nodup. exact Hd.
+Qed.
+
 Theorem distinct_ids_unique : forall S x, book_ok x = true -> ids_unique S x = true.
 Proof.
   intros S x H. unfold book_ok, book_fails in H. rewrite forallb_app in H.
   apply andb_true_iff in H as [_ H]. cbn [forallb] in H. rewrite andb_true_r in H.
   apply Nat.eqb_eq in H.
   assert (Hd : dup_count (all_ids x) = 0%nat) by (destruct (dup_count (all_ids x)); [reflexivity | discriminate]).
-  unfold ids_unique. eapply subseq_nodup; [apply ids_of_subseq | ].
-  apply dup_count_nodup. exact Hd.
+  now apply dup0_ids_unique.
 Qed.
